@@ -1392,11 +1392,48 @@ class Explorer:
         return out
 
     def _validate(self, ctx, s):
+        """Translation validation of the engine: run the path's witness natively and compare observations.
+        Witnesses are tried in order: small dyadic values (robust against float rounding at branch boundaries), then the raw model."""
         st = self.stats
         try:
-            m = ctx.get_model()
+            m0 = ctx.get_model()
         except _Ctl:
             return
+        cands = []
+        has_real = any(kind == "real" for (_z, kind) in ctx.inputs.values())
+        if has_real:
+            global _CTX
+            _CTX = ctx
+            try:
+                for den in (1, 8, 1024):
+                    ctx.solver.push()
+                    for (z, kind) in ctx.inputs.values():
+                        if kind == "real":
+                            ctx.solver.add(z3.ToReal(z3.ToInt(z * den)) == z * den, z <= 1000, z >= -1000)
+                    r = ctx._check()
+                    if r == z3.sat:
+                        cands.append(ctx.solver.model())
+                    ctx.solver.pop()
+                    if cands:
+                        break
+            finally:
+                _CTX = None
+        cands.append(m0)
+        last_bad = None
+        for m in cands:
+            bad, assignment, got = self._validate_one(ctx, s, m)
+            if bad is None:
+                st.validated += 1
+                if len(st.samples) < 4:
+                    st.samples.append({"params": jsonable(self.params), "witness_input": jsonable(assignment),
+                                       "observed": jsonable(got),
+                                       "obligations": [l for (l, v, _d) in s.obligations if v == "proved"][:12],
+                                       "decisions_on_path": len(ctx.decisions)})
+                return
+            last_bad = {"assignment": jsonable(assignment), "why": jsonable(bad), "params": jsonable(self.params)}
+        st.validation_mismatch.append(last_bad)
+
+    def _validate_one(self, ctx, s, m):
         assignment = s._model_assignment(m)
         global _CTX
         _CTX = ctx
@@ -1406,9 +1443,7 @@ class Explorer:
             _CTX = None
         cs, outcome, info = self.run_concrete(assignment)
         if outcome != "done":
-            st.validation_mismatch.append({"assignment": jsonable(assignment), "why": "concrete run outcome " + outcome,
-                                           "params": jsonable(self.params)})
-            return
+            return ("concrete run outcome " + outcome, info), assignment, None
         got = cs.observed
         bad = None
         for k in expected:
@@ -1419,21 +1454,11 @@ class Explorer:
                 bad = (k, jsonable(expected[k]), jsonable(got[k]))
                 break
         if bad is None:
-            # every obligation proved symbolically must also hold concretely
             for (label, verdict, _d) in cs.obligations:
                 if verdict == "refuted" and not any(l == label for (l, _a, _dd) in s.cex):
                     bad = ("obligation", label, "holds symbolically, fails concretely")
                     break
-        if bad is None:
-            st.validated += 1
-            if len(st.samples) < 4:
-                st.samples.append({"params": jsonable(self.params), "witness_input": jsonable(assignment),
-                                   "observed": jsonable(got),
-                                   "obligations": [l for (l, v, _d) in s.obligations if v == "proved"][:12],
-                                   "decisions_on_path": len(ctx.decisions)})
-        else:
-            st.validation_mismatch.append({"assignment": jsonable(assignment), "why": jsonable(bad),
-                                           "params": jsonable(self.params)})
+        return bad, assignment, got
 
     # main loop ----------------------------------------------------------------
     def frontier(self, depth):
